@@ -186,7 +186,7 @@ func byteClassSig(s string) string {
 	return sb.String()
 }
 
-var c02Hostile = []string{"\"", "'", ";", ",", "=", "\\", "/", "(", ")", "<", ">", "@", ":", "[", "]", "?", "{", "}", "%", "*", " ", "\t", "\r", "\n", "\x0c", "\x7f", "\x80", "\xff", "\xc3", "\xc3\xa9", "\xe2\x82", "é", "日本", " ", "&quot;", "&#34;", "&amp;", "&#x3b;", "%22", "utf-8", "x"}
+var c02Hostile = []string{"٨", "utf-٨", "iso-8859-１", "²", "Ⅷ", "ж", "ñ", "a\u0301", "\u200d", "\ufeff", "𝟘", "x\u00adx", "ＵＴＦ-８", "\u202e", "\"", "'", ";", ",", "=", "\\", "/", "(", ")", "<", ">", "@", ":", "[", "]", "?", "{", "}", "%", "*", " ", "\t", "\r", "\n", "\x0c", "\x7f", "\x80", "\xff", "\xc3", "\xc3\xa9", "\xe2\x82", "é", "日本", " ", "&quot;", "&#34;", "&amp;", "&#x3b;", "%22", "utf-8", "x"}
 
 func c02Label(r *rand.Rand) string {
 	switch r.Intn(6) {
@@ -278,6 +278,91 @@ func c02Run(c *fw.Ctx, b fw.Batch) {
 			}
 			c02Judge(c, c02Case{Kind: "seek-fails", In: s, Limit: lim, Entry: "DetectReaderSeekFail"})
 		}
+	case "strace":
+		// DetectFile on one fixed file while strace injects a fault into close(2) (b.Idx 0)
+		// or into the k-th read(2) (b.Idx k) of exactly that file
+		target := os.Getenv("VERIF_STRACE_FILE")
+		if target == "" {
+			panic("verif harness: VERIF_STRACE_FILE not set")
+		}
+		for i := 0; i < 5; i++ {
+			for _, lim := range []uint32{3072, 0, 64} {
+				var m *mimetype.MIME
+				var err error
+				key := fmt.Sprintf("DetectFile under strace fault injection idx=%d limit=%d", b.Idx, lim)
+				pl := c02Case{Kind: "strace-fault", Limit: lim, Entry: "DetectFile", FailAt: b.Idx}
+				c.Trace(func() (string, any) { return key, pl })
+				if !c.Guard(key, func() any { return pl }, func() {
+					mimetype.SetLimit(lim)
+					m, err = mimetype.DetectFile(target)
+				}) {
+					continue
+				}
+				c.Eval(1)
+				if err != nil {
+					c.Count("strace_injected_faults_surfaced_as_error", 1)
+				} else {
+					c.Count("strace_runs_without_error", 1)
+				}
+				c.SetAdd("strace_outcomes", fmt.Sprintf("fault=%d limit=%d -> %s err=%v", b.Idx, lim, m.String(), err))
+				if why := validator().Check(m, err); why != "" {
+					c.Violate("invalid-result", key, why+" (kernel-level fault injected with strace)", pl)
+				}
+				c.Distinct(fmt.Sprintf("strace|%d|%d|%v", b.Idx, lim, err != nil))
+			}
+		}
+	case "extended":
+		// the invariant on trees enlarged by Extend below the deepest built-in formats
+		base := baseTree()
+		for h := 0; h < b.N; h++ {
+			mimetype.VerifResetTree()
+			parents := []string{"application/geo+json", "application/rss+xml", "application/vnd.oasis.opendocument.text-template", "model/gltf+json", "application/atom+xml", "audio/ogg", "application/x-sharedlib", "", "text/plain"}
+			var probes [][]byte
+			inputs := map[string][]byte{
+				"application/geo+json": []byte(`{"type":"Feature","verif":1}`), "application/rss+xml": []byte(`<?xml version="1.0"?><rss verif="1">`),
+				"application/vnd.oasis.opendocument.text-template": []byte("PK\x03\x04" + string(make([]byte, 26)) + "mimetypeapplication/vnd.oasis.opendocument.text-templatePK"),
+				"model/gltf+json": []byte(`{"asset":{"version":"2.0"}}`), "application/atom+xml": []byte(`<?xml version="1.0"?><feed xmlns="http://www.w3.org/2005/Atom">`),
+				"audio/ogg": []byte("OggS\x00\x02" + string(make([]byte, 22)) + "\x01vorbis\x00\x00"), "application/x-sharedlib": []byte("\x7FELF\x02\x01\x01\x00\x00\x00\x00\x00\x00\x00\x00\x00\x03\x00\x3e\x00"),
+				"": []byte("VERIF root"), "text/plain": []byte("VERIF text"),
+			}
+			depth := 1 + r.Intn(3)
+			for _, pn := range parents {
+				cur := pn
+				for d := 0; d < depth; d++ {
+					extCounter++
+					name := fmt.Sprintf("application/x-verif-c02-%d", extCounter)
+					det := func([]byte, uint32) bool { return true }
+					if cur == "" {
+						mimetype.Extend(det, name, ".c2")
+					} else {
+						mimetype.Lookup(cur).Extend(det, name, ".c2")
+					}
+					cur = name
+				}
+				probes = append(probes, inputs[pn])
+			}
+			_ = base
+			v := lib.NewValidator(lib.Snapshot())
+			for _, x := range probes {
+				for _, entry := range []string{"Detect", "DetectReader"} {
+					var m *mimetype.MIME
+					var err error
+					pl := c02Case{Kind: "extended-tree", In: x, Limit: 3072, Entry: entry}
+					key := fw.InputKey(x, 3072, entry+"/extended")
+					c.Trace(func() (string, any) { return key, pl })
+					if !c.Guard(key, func() any { return pl }, func() { m, err = detect(x, 3072, entry) }) {
+						continue
+					}
+					c.Eval(1)
+					c.Count("results_on_extended_trees", 1)
+					if why := v.Check(m, err); why != "" {
+						c.Violate("invalid-result", key, fmt.Sprintf("%s; on a tree with %d-deep extensions below the built-in leaves; input %s; hierarchy %s", why, depth, fw.Quote(x, 60), lib.ChainOf(m)), pl)
+					}
+					c.Max("deepest_result_hierarchy", int64(len(lib.ChainOf(m))))
+				}
+			}
+		}
+		mimetype.VerifResetTree()
 	case "broad":
 		// the invariant over a broad sample of every other input family
 		seeds := lib.Seeds()
@@ -324,7 +409,7 @@ func init() {
 	fw.Register(&fw.Prop{
 		ID:    "C02",
 		Level: "exploration",
-		Rule: "labels = every single byte 0x09-0xFF (bare and embedded), pairs and runs over a hostile alphabet (quotes, ; , = \\ / ( ) < > @ : [ ] ? { } % * ', space, TAB, CR, LF, FF, DEL, invalid UTF-8, non-ASCII, character references), empty and very long labels, spliced into 9 declaration syntaxes (meta charset unquoted/quoted, http-equiv pragmas, XML prologues, BOM + meta); entry points Detect, DetectReader (plain reader, reader implementing a working or failing io.Seeker), DetectFile; injected read errors at every offset class; missing file and directory; plus the invariant over all seeds at every prefix length, seed mutants, generated JSON / HTML / XML / CSV / text. Every returned (value, error) is judged by the invariant: String() parses, type registered, only charset on text/plain|html|xml, finite parameter-free registered ancestors ending at application/octet-stream, error => exactly application/octet-stream. " +
+		Rule: "labels = every single byte 0x09-0xFF (bare and embedded), pairs and runs over a hostile alphabet (quotes, ; , = \\ / ( ) < > @ : [ ] ? { } % * ', space, TAB, CR, LF, FF, DEL, invalid UTF-8, non-ASCII, character references), empty and very long labels, spliced into 9 declaration syntaxes (meta charset unquoted/quoted, http-equiv pragmas, XML prologues, BOM + meta); entry points Detect, DetectReader (plain reader, reader implementing a working or failing io.Seeker), DetectFile; injected read errors at every offset class; missing file and directory; DetectFile while strace injects EIO into close(2) or into the k-th read(2) of the file (real kernel-level faults); trees enlarged by 1-3 levels of extensions below the deepest built-in formats; plus the invariant over all seeds at every prefix length, seed mutants, generated JSON / HTML / XML / CSV / text. Every returned (value, error) is judged by the invariant: String() parses, type registered, only charset on text/plain|html|xml, finite parameter-free registered ancestors ending at application/octet-stream, error => exactly application/octet-stream. " +
 			"non-trivial = the result carries a charset parameter that needed quoting or RFC 2231 encoding, or came with an error; distinct = distinct (bare type, quoted/rfc2231, byte-class signature of the parsed charset, syntax) and (entry, fail offset class).",
 		Assumptions: []string{
 			"mime.ParseMediaType is the definition of a valid media type string",
@@ -339,6 +424,20 @@ func init() {
 			bs = append(bs, batches("labels", 8, nl, 1800)...)
 			bs = append(bs, batches("errors", 2, ne, 1800)...)
 			bs = append(bs, batches("broad", 6, nb, 1800)...)
+			bs = append(bs, batches("extended", 1, 200, 1800)...)
+			// kernel-level faults on DetectFile: strace injects EIO into close(2) / the k-th read(2) of one file
+			target := filepath.Join(lib.Root(), "out", "C02", "strace-target.html")
+			os.MkdirAll(filepath.Dir(target), 0o755)
+			os.WriteFile(target, []byte("<html><head><meta charset=\"koi8-r\"></head><body>"+strings.Repeat("<p>text</p>", 600)+"</body></html>"), 0o644)
+			for k := 0; k <= 2; k++ {
+				inj := "inject=close:error=EIO"
+				if k > 0 {
+					inj = fmt.Sprintf("inject=read:error=EIO:when=%d+", k)
+				}
+				bs = append(bs, fw.Batch{Name: fmt.Sprintf("strace-fault-%d", k), Kind: "strace", Idx: k, TimeoutS: 600,
+					Env:    []string{"VERIF_STRACE_FILE=" + target},
+					Strace: []string{"-f", "-o", "/dev/null", "-e", "trace=read,close", "-e", inj, "-P", target}})
+			}
 			return bs
 		},
 		Run: c02Run,
